@@ -7,6 +7,7 @@ nothing), three error modes, delimited and fixed.  Schedule: rows are fed one ``
 close placement (after exhaustion; right after the first error in raise mode); chunk regime.
 Oracle: reference model (dict for uniqueness, set for distinct values) - tabular.RefReader."""
 import copy
+import os
 
 from sim import core, lib, simfs, tabular
 
@@ -32,7 +33,7 @@ COMPONENTS = {
              "delimited_rows/fixed_rows", "csv", "io.TextIOWrapper/BufferedReader"],
     "stub": ["SimFS/SimRaw", "text peer", "stepping client"],
 }
-PROBES_REQUIRED = ["other-cid-stepped-alternately", "api:validate-with-limit", "other-data-set-validated-before", "duplicate-right-after-rejected-row-with-same-key", "triple-occurrence", "threshold-hit-exactly",
+PROBES_REQUIRED = ["empty-key-value", "readers-built-from-the-same-cid-path", "other-cid-stepped-alternately", "api:validate-with-limit", "other-data-set-validated-before", "duplicate-right-after-rejected-row-with-same-key", "triple-occurrence", "threshold-hit-exactly",
                    "distinctcount-declared-before-isunique", "end-check-fails", "duplicate", "mode:raise", "mode:yield",
                    "mode:continue"]
 
@@ -48,6 +49,11 @@ def generate(seed, tier):
         # free-text keys whose values contain the separator a naive concatenation of key values would use
         fields = [{"name": "k%d" % index, "type": "Text", "length": "1{sep}4", "width": 4} for index in range(key_count)]
         alphabet = ["a", "a, b", "b, a"]
+    elif fmt == "delimited" and swarm.random() < 0.25:
+        # key fields that may be empty: the empty value is a value like any other for both checks
+        for field in fields:
+            field["empty"] = True
+        alphabet = alphabet[:-1] + [""]
     fields.append({"name": "n", "type": "Integer", "rule": "0{sep}9", "width": 1})
     checks = []
     kinds = swarm.choice([["IsUnique"], ["DistinctCount"], ["IsUnique", "DistinctCount"], ["IsUnique", "DistinctCount"],
@@ -84,7 +90,7 @@ def generate(seed, tier):
     if swarm.random() < 0.25:
         # an independent Cid object (same definition) reading other data, stepped alternately with the main run
         other = {"table": [[rng.choice(alphabet) for _ in range(key_count)] + ["1"] for _ in range(rng.randint(1, 5))]}
-    return {"other_cid_interleaved": other, "prelude": prelude, "io": simfs.IoConfig.draw(swarm), "cid": spec, "table": table, "mode": mode,
+    return {"cid_as_path": swarm.random() < 0.3, "other_cid_interleaved": other, "prelude": prelude, "io": simfs.IoConfig.draw(swarm), "cid": spec, "table": table, "mode": mode,
             "api": swarm.choice(["Reader", "Reader", "validate"]) if mode == "raise" else swarm.choice(["Reader", "rows"]),
             "limit": swarm.choice([None, None, 0, 1, 2, 3, 5]),
             "source": swarm.choice(["path", "stream"])}
@@ -107,6 +113,19 @@ def execute(scenario):
     states = []
     with simfs.Seams(fs):
         cid = lib.load_cid(tabular.cid_rows(spec))
+        cid_file = None
+        if scenario.get("cid_as_path"):
+            # every reader is built from the same CID *path*: each such reader is an independent validation
+            # (the file exists on the real scratch disk too, for code that asks the OS about it)
+            folder = os.path.join(os.environ.get("VERIF_SCRATCH", "/dev/shm/verif-scratch-x"), "c05-%d" % os.getpid())
+            os.makedirs(folder, exist_ok=True)
+            cid_file = os.path.join(folder, "cid.csv")
+            cid_bytes = lib.render_delimited(tabular.cid_rows(spec), ",", '"', "\n").encode("utf-8")
+            with open(cid_file, "wb") as stream:
+                stream.write(cid_bytes)
+            fs.store(cid_file, cid_bytes)
+            cid = cid_file
+            result.probe("readers-built-from-the-same-cid-path")
         source = path if scenario.get("source", "path") == "path" else fs.text_stream(path, newline="")
         prelude = scenario.get("prelude")
         run = None
@@ -124,7 +143,7 @@ def execute(scenario):
         other_run = None
         if scenario.get("other_cid_interleaved"):
             tabular.store(fs, "other" + path, spec, scenario["other_cid_interleaved"]["table"])
-            other_cid = lib.load_cid(tabular.cid_rows(spec), "other-cid")
+            other_cid = cid_file or lib.load_cid(tabular.cid_rows(spec), "other-cid")
             other_run = lib.ReadRun(other_cid, "other" + path, "Reader", "continue")
             result.probe("other-cid-stepped-alternately")
         while run.step():
@@ -132,7 +151,8 @@ def execute(scenario):
                 other_run.step()
             history.add("client", "next", run.items[-1] if run.items and not run.finished else None)
             sizes = []
-            for check in cid.check_map.values():
+            cid_object = run.reader.cid if run.reader is not None else (None if cid_file else cid)
+            for check in (cid_object.check_map.values() if cid_object is not None else []):
                 for attribute in ("_row_key_to_location_map", "_distinct_value_to_count_map"):
                     mapping = getattr(check, attribute, None)
                     if mapping is not None:
@@ -148,6 +168,8 @@ def execute(scenario):
 
     # reach
     result.probe("mode:" + mode)
+    if spec["fields"][0].get("empty") and any(row and row[0] == "" for row in table):
+        result.probe("empty-key-value")
     kinds = [check[1] for check in spec["checks"]]
     if kinds == ["DistinctCount", "IsUnique"]:
         result.probe("distinctcount-declared-before-isunique")
@@ -197,6 +219,8 @@ def candidates(scenario):
         yield candidate
     if scenario.get("other_cid_interleaved"):
         yield lib.with_value(scenario, ["other_cid_interleaved"], None)
+    if scenario.get("cid_as_path"):
+        yield lib.with_value(scenario, ["cid_as_path"], False)
     if scenario.get("limit") is not None:
         yield lib.with_value(scenario, ["limit"], None)
     if scenario.get("prelude"):
